@@ -620,7 +620,66 @@ def _own_ids(ctx):
               desc=f"h2 DataReceived: {n_ok} non-error paths acknowledge (flow_controlled_length, stream_id) of the event")
 
 
+def _stream_identity(ctx):
+    """R05.5: an HttpStream names itself only through `self.stream_id` once an event object has been handed on.
+
+    Http2Client / Http3Client rewrite `event.stream_id` **in place** to the upstream id (R05.1 checks that they do). An event that HttpStream
+    forwards with `SendHttp(event, conn)` is therefore no longer a reliable source of the *client-side* stream id: any later read of
+    `<event>.stream_id` in the same handler (for `DropStream`, for another event, as a key) names a different stream."""
+    from ..paths import GenericSpec, traces_of
+
+    rewrites = 0
+    for rel, cls in ((H2, "Http2Client"), (H3, "Http3Client")):
+        fn = ctx.func(rel, f"{cls}._handle_event")
+        rewrites += sum(1 for n in ast.walk(fn) if isinstance(n, ast.Assign) and any(attr_chain(t).endswith(".stream_id") and not attr_chain(t).startswith("self.") for t in n.targets))
+    ctx.require(rewrites >= 2, "Http2Client/Http3Client no longer rewrite event.stream_id in place (R05.5 premise changed)")
+    cls = ctx.model.cls(I, "HttpStream")
+    methods = [d for d in cls.body if isinstance(d, ast.FunctionDef)]
+    n_sites = 0
+    n_drop = 0
+    for fn in methods:
+        params = {a.arg for a in fn.args.args} - {"self"}
+        fwd = [n for n in ast.walk(fn) if isinstance(n, ast.Call) and last_attr(n.func) == "SendHttp" and n.args and isinstance(n.args[0], ast.Name) and n.args[0].id in params]
+        for n in ast.walk(fn):
+            if isinstance(n, ast.Call) and last_attr(n.func) == "DropStream":
+                n_drop += 1
+        if not fwd:
+            continue
+        names = {n.args[0].id for n in fwd}
+
+        class S(GenericSpec):
+            def events(self, node, st):
+                out = []
+                simple = not isinstance(node, (ast.If, ast.While, ast.For, ast.Try, ast.With, ast.FunctionDef, ast.Match))
+                if simple:
+                    for x in eval_order(node):
+                        if isinstance(x, ast.Attribute) and x.attr == "stream_id" and isinstance(x.value, ast.Name) and x.value.id in names and isinstance(x.ctx, ast.Load):
+                            out.append(("read", x.value.id, norm(getattr(x, "_parent", x))))
+                        if isinstance(x, ast.Call) and last_attr(x.func) == "SendHttp" and x.args and isinstance(x.args[0], ast.Name) and x.args[0].id in names:
+                            out.append(("handed", x.args[0].id))
+                        if isinstance(x, ast.Assign):
+                            pass
+                return out
+
+        res, _ = traces_of(fn, S())
+        ctx.paths += len(res)
+        bad = None
+        for t, how, st in res:
+            handed = set()
+            for e in t:
+                if e[0] == "handed":
+                    handed.add(e[1])
+                elif e[0] == "read" and e[1] in handed:
+                    bad = e
+        n_sites += len(fwd)
+        ctx.check(bad is None, "R05.5", (I, f"HttpStream.{fn.name}", fn), f"{fn.name}: stream id read from an event after SendHttp({', '.join(sorted(names))}, ...)",
+                  f"`{bad[2] if bad else ''}` reads the stream id of an event that was already handed to a connection; Http2Client/Http3Client rewrite that field in place to the upstream id, "
+                  "so the command names another client stream (its response is dropped / attributed to the wrong flow)", desc=f"HttpStream.{fn.name}: {len(fwd)} forwarded event(s), no later read of their stream_id")
+    ctx.require(n_sites >= 1 and n_drop >= 1, "HttpStream no longer forwards received events / yields DropStream (R05.5 anchor changed)")
+
+
 def check(ctx):
+    ctx.rule("R05.5", "HttpStream never reads the stream id of an event after handing that event to a connection (clients rewrite it in place)")
     ctx.rule("R05.1", "stream-id maps are a converse pair written at one place; HttpEvents are rewritten in, ReceiveHttp rewritten out, every command yielded once")
     ctx.rule("R05.2", "concurrency gate / resume expressions (value table), gated events queued per stream only, FIFO resume, provisional limit cleared only on RemoteSettingsChanged")
     ctx.rule("R05.3", "HttpLayer routes ReceiveHttp by stream id, SendHttp by connection, creates streams only on RequestHeaders, drops only on DropStream")
@@ -631,6 +690,8 @@ def check(ctx):
     _gate_tables(ctx)
     _routing(ctx)
     _own_ids(ctx)
+    _stream_identity(ctx)
+    ctx.expect_instances("R05.5", 1)
     ctx.expect_instances("R05.1", 6)
     ctx.expect_instances("R05.2", 4)
     ctx.expect_instances("R05.3", 8)
@@ -638,6 +699,7 @@ def check(ctx):
 
 
 MUTANTS = [
+    Mutant("drop-stream-by-forwarded-event-id", I, "        yield DropStream(self.stream_id)", "        yield DropStream(event.stream_id)", "R05.5"),
     # R05.1
     Mutant("h2-their-map-wrong-key", H2, "                self.their_stream_id[ours] = event.stream_id\n            event.stream_id = ours\n\n        for cmd in self._handle_event2(event):",
            "                self.their_stream_id[event.stream_id] = ours\n            event.stream_id = ours\n\n        for cmd in self._handle_event2(event):", "R05.1"),
